@@ -195,6 +195,9 @@ def _discharge_sub(b, bb, a, c):
     txt = "%s - %s" % (show(a, False), show(c, False))
     for fname, frag, reason in DECR_TABLE:
         if b.name == fname and frag in txt:
+            prem = _table_premise(b, bb, reason)
+            if prem is not None:
+                return "unmatched", "`%s`: the table entry assumes it is %s, but it is not" % (txt[:80], prem)
             if "inside the loop" in reason or reason.startswith("Bvd: inside the loop"):
                 # the table entry is only valid where it says it is: inside a loop body
                 if not any(bb in body for hdr, body in b.loops()):
@@ -202,6 +205,36 @@ def _discharge_sub(b, bb, a, c):
                                          "empty input (panic with overflow checks)" % txt[:100])
             return "trusted", reason
     return "unmatched", "checked subtraction `%s` is not dominated by a guard implying it cannot underflow" % txt[:140]
+
+
+def _table_premise(b, bb, reason):
+    """verify the guard a DECR table entry names; returns a description of the missing premise or None"""
+    rels = None
+
+    def have(pred):
+        nonlocal rels
+        if rels is None:
+            rels = _relations_at(b, bb)
+        return any(pred(op, l, r) for op, l, r in rels)
+
+    sl = ("field", ("param", "self"), "length")
+    if "inside `if self.length % BIT_UNIT != 0`" in reason:
+        ok = have(lambda op, l, r: op == "Ne" and is_bin(l, "Rem") and l[2] == sl and r == ("int", 0))
+        return None if ok else "inside `if self.length % BIT_UNIT != 0`"
+    if "inside `while idx < self.length`" in reason:
+        ok = have(lambda op, l, r: op == "Lt" and r == sl)
+        return None if ok else "inside `while idx < self.length`"
+    if "i.e. length > 0" in reason:
+        ok = have(lambda op, l, r: (op in ("Gt", "Ne") and is_call(l, "capacity_from_bit_len") and r == ("int", 0))
+                  or (op == "Lt" and is_call(r, "capacity_from_bit_len")) or (op == "Gt" and l[0] == "var" and r == ("int", 0)))
+        return None if ok else "inside a branch implying capacity_from_bit_len(self.length) > 0"
+    if "n < end - start was just checked" in reason:
+        ok = have(lambda op, l, r: op == "Lt" and l[0] == "param" and is_bin(r, "Sub"))
+        return None if ok else "guarded by n < end - start"
+    if "inside `while new_idx > 0`" in reason:
+        ok = have(lambda op, l, r: op == "Gt" and l[0] == "var" and r == ("int", 0))
+        return None if ok else "inside `while new_idx > 0`"
+    return None
 
 
 def _strip_iter_adaptors(e):
